@@ -33,7 +33,8 @@ LEVEL_TEXT = ("(a) for each full-scale/max-int/gain setting SpikeGLX writes for 
 LEVEL_NOTE = "Trusted: cvc5/z3, lazy-array and fake-file models, the mtscomp and filter stubs."
 
 SETTINGS = {"0.5_8192": ("0.5", 8192), "0.62_2048": ("0.62", 2048), "0.62_8192": ("0.62", 8192), "0.6_512": ("0.6", 512), "0.5_2048": ("0.5", 2048)}
-MAPS = {"contig": [0, 0, 1, 1], "interleaved": [0, 1, 0, 1], "single": [2, 2, 2, 2], "unbalanced": [0, 1, 1, 1, 3], "four": [0, 1, 2, 3, 0, 1]}
+MAPS = {"contig": [0, 0, 1, 1], "interleaved": [0, 1, 0, 1], "single": [2, 2, 2, 2], "unbalanced": [0, 1, 1, 1, 3], "four": [0, 1, 2, 3, 0, 1],
+        "without_shank0": [1, 3, 1, 3]}        # sites on shanks b and d only
 
 
 def bounds(tier):
@@ -310,7 +311,7 @@ def cases(tier):
     cs.append(Case("split_contig_w1200_rerun_overwrite", "case_split", {"mapname": "contig", "window": 1200, "K": 2, "rerun": True}, timeout_s=2400))
     for n in (2, 3, 4) if tier == "quick" else (2, 3, 4, 5, 6):
         cs.append(Case(f"chans_text_{n}", "case_chans_text_roundtrip", {"n": n}))
-    for mp in (["contig", "interleaved"] if tier == "quick" else list(MAPS)):
+    for mp in (["contig", "interleaved", "single", "without_shank0"] if tier == "quick" else list(MAPS)):
         cs.append(Case(f"reconstruct_{mp}", "case_reconstruct", {"mapname": mp, "window": 1200, "K": 2}, timeout_s=2400))
     # long recordings at the fractional rates SpikeGLX really reports (duration x nominal rate != sample count)
     cs.append(Case("reconstruct_contig_fs30000.39", "case_reconstruct", {"mapname": "contig", "window": 60000, "K": 2, "fs_txt": "30000.390639481"}, timeout_s=2400))
